@@ -97,36 +97,37 @@ inductive Pass
   | retry            -- the pass ends in `return c.retryReadRecord(…)`
   deriving Repr, DecidableEq
 
-/-- one pass through `Conn.readRecordOrCCS(expectCCS)` up to (not including) a retry -/
-def step (L : Limits) (lib : Lib) (s : St) (expectCCS : Bool) : St × Pass :=
-  if s.inErr then (s, .done (.err .unexpected)) else
-  if s.input ≠ 0 then (setErr s, .done (.err .unexpected)) else
-  -- Read header, payload.
-  let (w1, r1, ok1) := fill lib s.wire s.raw L.hdr
-  let s := { s with wire := w1, raw := r1 }
-  if !ok1 then (setErr s, .done (.err .short)) else
+/-- what the first half of readRecordOrCCS produced -/
+inductive Fetched
+  | fail (p : Pass)
+  | got (h : RecHdr) (record : Bytes)
+  deriving Repr
+
+/-- first half of `Conn.readRecordOrCCS`: header, checks on the header, payload,
+`record := c.rawInput.Next(recordHeaderLen + n)` -/
+def fetch (L : Limits) (lib : Lib) (s : St) : St × Fetched :=
+  let f1 := fill lib s.wire s.raw L.hdr
+  let s := { s with wire := f1.1, raw := f1.2.1 }
+  if !f1.2.2 then (setErr s, .fail (.done (.err .short))) else
   match headerT L.hdr s.raw with
-  | .panic => (s, .done .panic)
-  | .err e => (setErr s, .done (.err e))
+  | .panic => (s, .fail (.done .panic))
+  | .err e => (setErr s, .fail (.done (.err e)))
   | .ok h =>
-  if !s.complete && h.typ == 0x80 then (setErr s, .done (.err .first)) else
-  if s.haveVers && h.vers != s.vers then (setErr s, .done (.err .version)) else
-  if !s.haveVers && ((h.typ != 21 && h.typ != 22) || h.vers ≥ 0x1000) then (setErr s, .done (.err .first)) else
-  if h.n > L.maxCiphertext then (setErr s, .done (.err .overflow)) else
-  let (w2, r2, ok2) := fill lib s.wire s.raw (L.hdr + h.n)
-  let s := { s with wire := w2, raw := r2 }
-  if !ok2 then (setErr s, .done (.err .short)) else
-  -- record := c.rawInput.Next(recordHeaderLen + n)
-  let record := s.raw.take (L.hdr + h.n)
-  let s := { s with raw := s.raw.drop (L.hdr + h.n) }
-  let plain : Option Bytes := if s.prot then lib.dec s.seq record else some (record.drop L.hdr)
-  match plain with
-  | none => (setErr s, .done (.err .badmac))
-  | some data =>
-  let s := { s with seq := s.seq + 1 }
+  if !s.complete && h.typ == 0x80 then (setErr s, .fail (.done (.err .first))) else
+  if s.haveVers && h.vers != s.vers then (setErr s, .fail (.done (.err .version))) else
+  if !s.haveVers && ((h.typ != 21 && h.typ != 22) || h.vers ≥ 0x1000) then (setErr s, .fail (.done (.err .first))) else
+  if h.n > L.maxCiphertext then (setErr s, .fail (.done (.err .overflow))) else
+  let f2 := fill lib s.wire s.raw (L.hdr + h.n)
+  let s := { s with wire := f2.1, raw := f2.2.1 }
+  if !f2.2.2 then (setErr s, .fail (.done (.err .short))) else
+  ({ s with raw := s.raw.drop (L.hdr + h.n) }, .got h (s.raw.take (L.hdr + h.n)))
+
+/-- second half of `Conn.readRecordOrCCS`: what is done with the plaintext `data` of a record
+of type `typ` (the buffers of the transport are not touched any more) -/
+def dispatch (L : Limits) (s : St) (expectCCS : Bool) (typ : UInt8) (data : Bytes) : St × Pass :=
   if data.length > L.maxPlaintext then (setErr s, .done (.err .overflow)) else
-  if !s.prot && h.typ == 23 then (setErr s, .done (.err .unexpected)) else
-  if h.typ == 21 then
+  if !s.prot && typ == 23 then (setErr s, .done (.err .unexpected)) else
+  if typ == 21 then
     if data.length ≠ 2 then (setErr s, .done (.err .unexpected)) else
     match idx data 1, idx data 0 with
     | .ok d1, .ok d0 =>
@@ -134,7 +135,7 @@ def step (L : Limits) (lib : Lib) (s : St) (expectCCS : Bool) : St × Pass :=
       else if d0 == 1 then (s, .retry)                          -- warning: drop and retry
       else (setErr s, .done (.err .unexpected))                 -- fatal / unknown level
     | _, _ => (s, .done .panic)
-  else if h.typ == 20 then
+  else if typ == 20 then
     if data.length ≠ 1 then (setErr s, .done (.err .unexpected)) else
     match idx data 0 with
     | .ok d0 =>
@@ -144,16 +145,28 @@ def step (L : Limits) (lib : Lib) (s : St) (expectCCS : Bool) : St × Pass :=
       else if !s.nextCipher then (setErr s, .done (.err .unexpected))
       else ({ s with prot := true, nextCipher := false, seq := 0 }, .done (.ok ()))
     | _ => (s, .done .panic)
-  else if h.typ == 23 then
+  else if typ == 23 then
     if !s.complete || expectCCS then (setErr { s with retry := if data.length > 0 then 0 else s.retry }, .done (.err .unexpected))
     else if data.length == 0 then (s, .retry)
     else ({ s with retry := 0, input := data.length }, .done (.ok ()))
-  else if h.typ == 22 then
+  else if typ == 22 then
     let s := { s with retry := if data.length > 0 then 0 else s.retry }
     if data.length == 0 || expectCCS then (setErr s, .done (.err .unexpected))
     else if s.complete && L.refusePostHs then (setErr s, .done (.err .unexpected))   -- no_renegotiation
     else ({ s with hand := s.hand ++ data }, .done (.ok ()))
   else (setErr { s with retry := if data.length > 0 then 0 else s.retry }, .done (.err .unexpected))
+
+/-- one pass through `Conn.readRecordOrCCS(expectCCS)` up to (not including) a retry -/
+def step (L : Limits) (lib : Lib) (s : St) (expectCCS : Bool) : St × Pass :=
+  if s.inErr then (s, .done (.err .unexpected)) else
+  if s.input ≠ 0 then (setErr s, .done (.err .unexpected)) else
+  match fetch L lib s with
+  | (s1, .fail p) => (s1, p)
+  | (s1, .got h record) =>
+    let plain : Option Bytes := if s1.prot then lib.dec s1.seq record else some (record.drop L.hdr)
+    match plain with
+    | none => (setErr s1, .done (.err .badmac))
+    | some data => dispatch L { s1 with seq := s1.seq + 1 } expectCCS h.typ data
 
 /-- `readRecordOrCCS` with `retryReadRecord`: recursion on the retry budget -/
 def readRecord (L : Limits) (lib : Lib) (s : St) (expectCCS : Bool) : St × Outcome Unit :=
@@ -163,7 +176,7 @@ def readRecord (L : Limits) (lib : Lib) (s : St) (expectCCS : Bool) : St × Outc
     let s2 := { s1 with retry := s1.retry + 1 }
     if s2.retry > L.maxUseless then (setErr s2, .err .unexpected)     -- "too many ignored records"
     else if h : L.maxUseless + 1 - s2.retry < L.maxUseless + 1 - s.retry then readRecord L lib s2 expectCCS
-    else (s2, .err .bounds)                                            -- stuck: unreachable (C09_progress)
+    else (s2, .err .stuck)                                             -- stuck: unreachable (C09_progress)
 termination_by L.maxUseless + 1 - s.retry
 decreasing_by
   simp only [s2] at h
@@ -176,28 +189,23 @@ def readUntil (L : Limits) (lib : Lib) (s : St) (need : Nat) : St × Outcome Uni
   match readRecord L lib s false with
   | (s1, .ok ()) =>
     if _h : s1.total < s.total then readUntil L lib s1 need
-    else (s1, .err .bounds)                                            -- stuck: unreachable (C09_progress)
+    else (s1, .err .stuck)                                             -- stuck: unreachable (C09_progress)
   | (s1, r) => (s1, r)
 termination_by s.total
 
 def knownType (t : UInt8) : Bool :=
   t == 1 || t == 2 || t == 11 || t == 12 || t == 13 || t == 14 || t == 16 || t == 15 || t == 20
 
-/-- `Conn.readHandshake`: returns the type and total length of the message -/
-def readHandshake (L : Limits) (lib : Lib) (s : St) : St × Outcome (UInt8 × Nat) :=
-  match readUntil L lib s 4 with
-  | (s1, .err e) => (s1, .err e)
-  | (s1, .panic) => (s1, .panic)
-  | (s1, .ok ()) =>
-  match frameT L.maxHandshake s1.hand with
-  | .panic => (s1, .panic)
-  | .err e => (setErr s1, .err e)
-  | .ok .needMore | .ok (.msg _ _ _) =>
-  -- n is known: wait for the body
-  let n := match s1.hand with
-    | _ :: b1 :: b2 :: b3 :: _ => be24 b1 b2 b3
-    | _ => 0
-  match readUntil L lib s1 (4 + n) with
+/-- the body length announced by the first four bytes of the handshake buffer -/
+def announced (hand : Bytes) : Nat :=
+  match hand with
+  | _ :: b1 :: b2 :: b3 :: _ => be24 b1 b2 b3
+  | _ => 0
+
+/-- `Conn.readHandshake` once the 4-byte header is buffered and the announced length is
+acceptable: wait for the body, cut the message out, check its type, unmarshal -/
+def finishHandshake (L : Limits) (lib : Lib) (s1 : St) : St × Outcome (UInt8 × Nat) :=
+  match readUntil L lib s1 (4 + announced s1.hand) with
   | (s2, .err e) => (s2, .err e)
   | (s2, .panic) => (s2, .panic)
   | (s2, .ok ()) =>
@@ -210,6 +218,17 @@ def readHandshake (L : Limits) (lib : Lib) (s : St) : St × Outcome (UInt8 × Na
   | .ok .needMore => (s2, .err .bounds)     -- unreachable: the loop above returned with enough bytes
   | .err e => (setErr s2, .err e)
   | .panic => (s2, .panic)
+
+/-- `Conn.readHandshake`: returns the type and total length of the message -/
+def readHandshake (L : Limits) (lib : Lib) (s : St) : St × Outcome (UInt8 × Nat) :=
+  match readUntil L lib s 4 with
+  | (s1, .err e) => (s1, .err e)
+  | (s1, .panic) => (s1, .panic)
+  | (s1, .ok ()) =>
+  match frameT L.maxHandshake s1.hand with
+  | .panic => (s1, .panic)
+  | .err e => (setErr s1, .err e)     -- "handshake message of length … exceeds maximum"
+  | .ok _ => finishHandshake L lib s1
 
 /-- the tail of `Conn.Read` once application data is available: the application takes all of
 it (`c.input.Read(b)` with a large buffer); if the next buffered record is an alert it is read
@@ -235,7 +254,7 @@ def readApp (L : Limits) (lib : Lib) (s : St) : St × Outcome Nat :=
   | (s1, .ok ()) =>
     if s1.input ≠ 0 then takeInput L lib s1
     else if _h : s1.total < s.total then readApp L lib s1
-    else (s1, .err .bounds)                                            -- stuck: unreachable (C09_progress)
+    else (s1, .err .stuck)                                             -- stuck: unreachable (C09_progress)
   | (s1, .err e) => (s1, .err e)
   | (s1, .panic) => (s1, .panic)
 termination_by s.total
